@@ -332,10 +332,25 @@ impl InnerFilter {
         let difference_covariance = uncertainty + measurement_noise;
         let update_strength =
             self.uncertainty * measurement_transform.transpose() * difference_covariance.inverse();
-        self.state = self.state + update_strength * difference;
-        self.uncertainty = ((Matrix::unit() - update_strength * measurement_transform)
+        let state = self.state + update_strength * difference;
+        let uncertainty = ((Matrix::unit() - update_strength * measurement_transform)
             * self.uncertainty)
             .symmetrize();
+
+        // The innovation covariance is positive by construction, but rounding
+        // can make it zero or negative once the uncertainty has been propagated
+        // over an absurdly long interval (e.g. a measurement timestamped decades
+        // ahead of the clock). The update is then meaningless (0/0); ignore the
+        // measurement rather than poisoning the filter state with NaN.
+        let finite = (0..3).all(|i| state.ventry(i).is_finite())
+            && (0..3).all(|i| (0..3).all(|j| uncertainty.entry(i, j).is_finite()));
+        if !finite {
+            log::warn!("Numerical breakdown in filter update, ignoring measurement");
+            return;
+        }
+
+        self.state = state;
+        self.uncertainty = uncertainty;
     }
 
     fn absorb_frequency_steer(
